@@ -15,15 +15,13 @@ From Typify Require Import Base.Json IR.TypeIR Algo.StrConv Proofs.StrConvProofs
 Import ListNotations.
 Open Scope N_scope.
 
-(* ---- known departures (findings/C11.json), as predicates on the type ---- *)
-(* F1: a simple enum reached from t has a raw name containing `{` or `}`; the Display
-   template passes it to write! as a FORMAT STRING *)
-Definition Known_F1 (T : space) (f : nat) (t : id) : Prop :=
-  display_ok (fun _ => true) T f t = false.
+(* ---- known departure (findings/C11.json), as a predicate on the type ---- *)
 (* F2: a native type reached from t prints (Display) differently from what it serialises;
-   [nok] is the set of natives whose Display was validated equal to Serialize *)
+   [nok] is the set of natives whose Display was validated equal to Serialize.
+   (F1, raw names with braces used as format strings, is FIXED in /repo a0ebad5: the
+   Display literal is escaped; no exclusion remains for it.) *)
 Definition Known_F2 (nok : ustring -> bool) (T : space) (f : nat) (t : id) : Prop :=
-  display_ok (fun _ => true) T f t = true /\ display_ok nok T f t = false.
+  display_ok nok T f t = false.
 
 (* ---- parsing succeeds exactly when deserialising the JSON string does, same value ---- *)
 Theorem C11_parse_eq_de :
@@ -56,47 +54,47 @@ Theorem C11_try_from_inner_eq_de :
     de_str re_match native_parse T f t s = try_from_inner T t s.
 Proof. exact try_from_inner_eq_de. Qed.
 
-(* ---- Display prints the string serialisation writes (outside F1, F2) ---- *)
+(* ---- Display prints the string serialisation writes (outside F2), for EVERY raw name ---- *)
 Theorem C11_display_is_ser :
   forall (re_match native_parse : ustring -> ustring -> bool)
          (native_display native_ser : ustring -> ustring -> ustring) (nok : ustring -> bool),
     (forall n s, nok n = true -> native_parse n s = true -> native_display n s = native_ser n s) ->
     forall (T : space) (f : nat) (t : id) (s : ustring) (x : sval),
       string_wired T f t = true -> wf_conv T f t = true -> emits_display T f t = true ->
-      ~ Known_F1 T f t -> ~ Known_F2 nok T f t ->
+      ~ Known_F2 nok T f t ->
       de_str re_match native_parse T f t s = Some x ->
       display native_display T f t x = ser_str native_ser T f t x /\
       ser_str native_ser T f t x <> None.
 Proof.
-  intros re np nd ns nok Hnat T f t s x W F E K1 K2 D.
+  intros re np nd ns nok Hnat T f t s x W F E K2 D.
   apply (display_is_ser re np nd ns nok Hnat T f t s x W F E); auto.
-  unfold Known_F1, Known_F2 in *.
-  destruct (display_ok (fun _ => true) T f t) eqn:A; [|exfalso; apply K1; reflexivity].
-  destruct (display_ok nok T f t) eqn:B; [reflexivity | exfalso; apply K2; split; reflexivity].
+  unfold Known_F2 in K2.
+  destruct (display_ok nok T f t) eqn:B; [reflexivity | exfalso; apply K2; reflexivity].
 Qed.
 
-(* full statement without the exclusions is refuted: *)
+(* the escaped literal `write!` receives renders back to the raw name, whatever it contains *)
+Theorem C11_display_brace_literal :
+  forall s, fmt_render (fmt_escape s) = Some s.
+Proof. exact fmt_render_escape. Qed.
+
+(* regression witnesses of the fixed finding F1 (raw names `{{`, `{`, `{self}`): Display = serialisation *)
 Definition noset := mkSettings None [] false [].
 Definition T_brace : space :=
   mkSpace [(1, mkEntry (DEnum [66] None TagExternal
-                          [mkVariant [123; 123] [88] VSimple; mkVariant [123] [89] VSimple] false
+                          [mkVariant [123; 123] [88] VSimple; mkVariant [123] [89] VSimple;
+                           mkVariant [123; 115; 101; 108; 102; 125] [90] VSimple] false
                           [AllSimpleVariants]) [])]
           2 noset false false false false [].
 Definition nofn : ustring -> ustring -> bool := fun _ _ => false.
 Definition nostr : ustring -> ustring -> ustring := fun _ _ => [].
 
-(* raw name `{{`: to_string() gives `{`, serialisation writes `{{`;
-   raw name `{`: the Display impl is not even a valid format string *)
-Theorem C11_display_brace_refuted :
-  exists (T : space) (f : nat) (t : id) (s : ustring) (x : sval),
-    string_wired T f t = true /\ wf_conv T f t = true /\ emits_display T f t = true /\
-    Known_F1 T f t /\
-    de_str nofn nofn T f t s = Some x /\
-    display nostr T f t x = Some [123] /\ ser_str nostr T f t x = Some [123; 123] /\
-    display nostr T f t (SEnum 1) = None.
-Proof.
-  exists T_brace, 3%nat, 1, [123; 123], (SEnum 0). vm_compute. repeat split; reflexivity.
-Qed.
+Example C11_brace_regression :
+  string_wired T_brace 3 1 = true /\ wf_conv T_brace 3 1 = true /\ emits_display T_brace 3 1 = true /\
+  display nostr T_brace 3 1 (SEnum 0) = Some [123; 123] /\
+  ser_str nostr T_brace 3 1 (SEnum 0) = Some [123; 123] /\
+  display nostr T_brace 3 1 (SEnum 1) = Some [123] /\
+  display nostr T_brace 3 1 (SEnum 2) = ser_str nostr T_brace 3 1 (SEnum 2).
+Proof. vm_compute. repeat split; reflexivity. Qed.
 
 Definition dt_name : ustring := ustr_of_string "::chrono::DateTime<::chrono::offset::Utc>".
 Definition T_dt : space :=
@@ -178,7 +176,7 @@ Theorem C11_constrained_display_not_emitted :
     emits_display T f t = false /\ has_impl T (S f) t TDisplay = true.
 Proof. exact constrained_display_not_emitted. Qed.
 
-(* ---- a raw name without braces is printed literally by write!(f, raw) ---- *)
+(* ---- a format string without braces is printed literally by write! ---- *)
 Theorem C11_fmt_render_literal :
   forall s, brace_free s = true -> fmt_render s = Some s.
 Proof. exact fmt_render_literal. Qed.
@@ -201,20 +199,19 @@ Definition T_ex : space :=
 
 Example C11_hyps_satisfiable_untagged :
   string_wired T_ex 4 1 = true /\ wf_conv T_ex 4 1 = true /\ emits_fromstr T_ex 4 1 = true /\
-  emits_display T_ex 4 1 = true /\ ~ Known_F1 T_ex 4 1 /\ ~ Known_F2 (fun _ => true) T_ex 4 1 /\
+  emits_display T_ex 4 1 = true /\ ~ Known_F2 (fun _ => true) T_ex 4 1 /\
   from_str nofn (fun _ _ => true) T_ex 4 1 [97; 98; 99; 100] = Some (SUntagged 1 (SNative uuid_name [97; 98; 99; 100])) /\
   from_str nofn (fun _ _ => true) T_ex 4 1 [97] = Some (SUntagged 0 (SWrap (SStr [97]))).
 Proof.
-  unfold Known_F1, Known_F2. vm_compute. repeat split; try reflexivity.
-  - intros H; discriminate.
-  - intros [_ H]; discriminate.
+  unfold Known_F2. vm_compute. repeat split; try reflexivity.
+  intros H; discriminate.
 Qed.
 
 Example C11_hyps_satisfiable_enum :
   string_wired T_ex 4 6 = true /\ wf_conv T_ex 4 6 = true /\ emits_fromstr T_ex 4 6 = true /\
-  emits_display T_ex 4 6 = true /\ ~ Known_F1 T_ex 4 6 /\
+  emits_display T_ex 4 6 = true /\
   de_str nofn nofn T_ex 4 6 [97; 45; 98] = Some (SWrap (SEnum 0)) /\
   display nostr T_ex 4 6 (SWrap (SEnum 0)) = Some [97; 45; 98].
 Proof.
-  unfold Known_F1. vm_compute. repeat split; try reflexivity. intros H; discriminate.
+  vm_compute. repeat split; reflexivity.
 Qed.
